@@ -58,14 +58,14 @@ type Entry struct {
 type ValueKind int
 
 const (
-	VInvalid  ValueKind = iota
-	VConst              // a Go constant (C); Obj set when it is a declared named constant
-	VObj                // a package-level variable used as an opaque comparable value (language.English)
-	VOther              // "any other value" of the type: unequal to every named value
-	VTable              // a map value
-	VNilTable           // nil map
-	VPending            // unresolved initialiser expression
-	VAmbiguous          // result depends on map iteration order
+	VInvalid   ValueKind = iota
+	VConst               // a Go constant (C); Obj set when it is a declared named constant
+	VObj                 // a package-level variable used as an opaque comparable value (language.English)
+	VOther               // "any other value" of the type: unequal to every named value
+	VTable               // a map value
+	VNilTable            // nil map
+	VPending             // unresolved initialiser expression
+	VAmbiguous           // result depends on map iteration order
 )
 
 type Value struct {
@@ -257,7 +257,7 @@ func (f *Facts) fillTable(t *Table, cl *ast.CompositeLit) {
 			continue
 		}
 		e := &Entry{KeyExpr: kv.Key, ValExpr: kv.Value, Pos: kv.Pos()}
-		e.Key = f.staticValue(info, kv.Key)
+		e.Key = f.StaticValue(info, kv.Key)
 		if e.Key.Kind != VConst && e.Key.Kind != VObj {
 			f.Problems = append(f.Problems, fmt.Sprintf("%s: table %s has a key that is neither a constant nor a package-level value", f.Prog.Pos(kv.Key.Pos()), t.Name))
 		}
@@ -270,7 +270,7 @@ func (f *Facts) fillTable(t *Table, cl *ast.CompositeLit) {
 				continue
 			}
 		}
-		e.Val = f.staticValue(info, kv.Value)
+		e.Val = f.StaticValue(info, kv.Value)
 		if e.Val.Kind == VInvalid {
 			e.Val = Value{Kind: VPending}
 		}
@@ -280,7 +280,7 @@ func (f *Facts) fillTable(t *Table, cl *ast.CompositeLit) {
 
 // staticValue classifies an initialiser expression: constant, named constant,
 // or a package-level variable of another package used as an opaque value.
-func (f *Facts) staticValue(info *types.Info, e ast.Expr) Value {
+func (f *Facts) StaticValue(info *types.Info, e ast.Expr) Value {
 	e = ast.Unparen(e)
 	tv, ok := info.Types[e]
 	if ok && tv.Value != nil {
